@@ -15,11 +15,23 @@
 #include <igris/datastruct/slist.h>
 #include <igris/container/slist.h>
 #include <igris/datastruct/hlist.h>
+#include <igris/util/memberxx.h>
 #include <algorithm>
+#include <climits>
 #include <map>
 #include <set>
 
 using namespace hv;
+
+// ---- round 3: the macro exercise in this TU (C++, -O1) and in harness/C01_o2.c (C, -O2)
+#define MM_CAT_(a, b) a##b
+#define MM_CAT(a, b) MM_CAT_(a, b)
+#define MM_FN c01_mm_o1
+#include "C01_macros.inc"
+extern "C" int c01_mm_o2(int i, char *buf, int cap);
+extern "C" int c01_o2_widths(char *buf, int cap);
+extern "C" struct dlist_head c01_pm_head, c01_pm_nodes[3];
+extern "C" struct slist_head c01_pm_shead, c01_pm_snodes[2];
 
 // ------------------------------------------------------------------ reference
 // The abstract state the property talks about: a family of disjoint cyclic
@@ -88,6 +100,16 @@ static std::string cptr(struct dlist_head *p)
     return i < 0 ? "?" : std::to_string(i);
 }
 static bool ckey_less(CItem *a, CItem *b) { return a->key < b->key; }
+// round 3: a weak order with many ties (key mod 3) and the wrap-around comparator of the timers on an
+// 8-bit counter, (int8_t)(a - b) < 0 (not transitive on the whole circle)
+static bool ckey_mod3(CItem *a, CItem *b) { return a->key % 3 < b->key % 3; }
+static bool ckey_wrap8(CItem *a, CItem *b) { return (int8_t)((uint8_t)(a->key * 37) - (uint8_t)(b->key * 37)) < 0; }
+static bool cmp_mode(int mode, int a, int b)
+{
+    if (mode == 1) return a % 3 < b % 3;
+    if (mode == 2) { int d = ((a * 37) & 255) - ((b * 37) & 255); d &= 255; return d >= 128; }
+    return a < b;
+}
 
 // ------------------------------------------------------------------ objects on two lists at once
 struct TObj { char pad0[24]; struct dlist_head la; int key; char pad1[12]; struct dlist_head lb; };
@@ -135,6 +157,62 @@ static std::string xptr(igris::dlist_node *p)
     return "?";
 }
 
+// ---- round 3: lists used BEFORE main().  The C heads are statically initialised (DLIST_HEAD_INIT /
+// SLIST_HEAD_INIT in the C TU); `pm_xlist` is a static igris::dlist.  The constructor of `pm_obj`
+// (init_priority(101): before every default-priority dynamic initialiser of this program) runs a fixed
+// history on them and stores what it saw; the op `premain` reports it and walks the lists again.
+static XList pm_xlist;
+static std::string pm_walk_c()
+{
+    std::string s; struct dlist_head *it; int guard = 0;
+    dlist_for_each(it, &c01_pm_head) { s += (s.empty() ? "" : ",") + std::to_string((int)(it - c01_pm_nodes)); if (++guard > 8) break; }
+    return (s.empty() ? "-" : s) + "/" + std::to_string(dlist_size(&c01_pm_head));
+}
+static std::string pm_walk_s()
+{
+    std::string s; struct slist_head *it; int guard = 0;
+    slist_for_each(it, &c01_pm_shead) { s += (s.empty() ? "" : ",") + std::to_string((int)(it - c01_pm_snodes)); if (++guard > 8) break; }
+    return (s.empty() ? "-" : s) + "/" + std::to_string(slist_size(&c01_pm_shead));
+}
+static std::string pm_walk_x()
+{
+    std::string s; int guard = 0;
+    for (auto &it : pm_xlist) { s += (s.empty() ? "" : ",") + std::to_string(it.key); if (++guard > 8) break; }
+    return (s.empty() ? "-" : s) + "/" + std::to_string(pm_xlist.size());
+}
+struct PreMain
+{
+    std::string c, sl, x;
+    bool x_ready = false;
+    XItem *items[3] = {nullptr, nullptr, nullptr};
+    PreMain()
+    {
+        // C dlist: 0 at the tail, 1 at the front, 2 at the tail, then 2 moved to the front: 2,1,0
+        dlist_add_tail(&c01_pm_nodes[0], &c01_pm_head);
+        dlist_add(&c01_pm_nodes[1], &c01_pm_head);
+        dlist_add_tail(&c01_pm_nodes[2], &c01_pm_head);
+        dlist_move(&c01_pm_nodes[2], &c01_pm_head);
+        c = pm_walk_c();
+        slist_add(&c01_pm_snodes[0], &c01_pm_shead);
+        slist_add(&c01_pm_snodes[1], &c01_pm_shead);
+        sl = pm_walk_s();
+        // C++ dlist: only when the static list is already a self-linked head (a zero-filled one would crash)
+        x_ready = pm_xlist.first_node() != nullptr && pm_xlist.last_node() != nullptr;
+        if (x_ready)
+        {
+            for (int i = 0; i < 3; i++) { items[i] = new XItem(); items[i]->key = i; }
+            pm_xlist.move_back(*items[0]);
+            pm_xlist.move_front(*items[1]);
+            pm_xlist.move_back(*items[2]);
+            pm_xlist.pop_front();       // 1 leaves: 0,2
+            x = pm_walk_x();
+        }
+        else x = "unconstructed";
+    }
+    ~PreMain() { for (auto *p : items) delete p; }
+};
+static PreMain pm_obj __attribute__((init_priority(101)));
+
 // ------------------------------------------------------------------ slist
 struct SItem { int key; struct slist_head lnk; };
 static std::vector<SItem *> sn;
@@ -173,6 +251,12 @@ static std::map<int, std::vector<int>> hlists; // hlist reference: head id -> no
 
 static std::map<int, std::vector<int>> slists; // slist reference: head id -> element ids
 static std::set<int> hidle;                     // hlist nodes with pprev == NULL (node_init'ed, not linked since)
+// OBSERVABLE (round 3 correction): the property says of a REMOVED node only that no list reaches it (oracle).
+// Its own link fields are left open (poison values of dlist_del, stale next of a popped slist node, stale
+// next/pprev of a deleted hlist node), so the dump prints a fixed token for them:
+//   c / t kinds: nodes removed with the plain dlist_del and not re-initialised / re-inserted since (ids; t: rids)
+//   s kind: nodes that are in no list (s_free);  h kind: nodes that no head's chain reaches.
+static std::set<int> removed_d;
 
 // container_of-style macros with a SIDE-EFFECTING argument: the argument must be evaluated exactly once
 // (one pop idiom = one pop).  Every helper counts its evaluations.
@@ -203,7 +287,7 @@ static std::string evals_msg() { return "the argument of a container_of macro wa
 static std::string admitted_d(const Ref &R, const std::string &op, int a, int b)
 {
     auto unlinked = [&](int x) { return !R.in_ring(x) || R.lone(x); };
-    if (op == "cadd_next" || op == "cadd_prev" || op == "cinsert_instead" || op == "cmove_sorted")
+    if (op == "cadd_next" || op == "cadd_prev" || op == "cinsert_instead" || op == "cmove_sorted" || op == "cmove_sorted_k")
     {
         if (!unlinked(a)) return "the entry is linked (Linux contract: add/insert want an unlinked entry)";
         if (a == b) return "entry == position";
@@ -215,6 +299,8 @@ static std::string admitted_d(const Ref &R, const std::string &op, int a, int b)
     else if (op == "cmove" || op == "cmove_tail" || op == "xmove_next" || op == "xmove_prev" || op == "xmove_front" || op == "xmove_back")
     { if (!R.in_ring(a) || !R.in_ring(b)) return "a node is in no ring"; }
     else if (op == "xnew" || op == "xlnew") { if (!unlinked(a)) return "constructed over a linked node"; }
+    else if (op == "xsplice_same") { if (!R.in_ring(a) || !R.in_ring(b) || a == b || R.find(a) != R.find(b)) return "xsplice_same wants two different heads of ONE ring"; }
+    else if (op == "xmove_head") { if (!R.in_ring(a) || !R.in_ring(b)) return "a node is in no ring"; }
     else if (op == "xsplice") { if (!R.in_ring(a) || !R.in_ring(b) || (a != b && R.find(a) == R.find(b))) return "heads in the same ring / in no ring"; }
     return "";
 }
@@ -286,8 +372,10 @@ static void free_all()
     hlists.clear();
     slists.clear();
     hidle.clear();
+    removed_d.clear();
 }
 
+static bool s_free(int a);
 static std::string dump()
 {
     std::string s;
@@ -295,13 +383,13 @@ static std::string dump()
     {
         if (cn.size() > 16) return s;
         for (size_t i = 0; i < cn.size(); i++)
-            s += (i ? " " : "") + std::to_string(i) + ":" + cptr(cn[i]->lnk.next) + "/" + cptr(cn[i]->lnk.prev);
+            s += (i ? " " : "") + std::to_string(i) + ":" + (removed_d.count((int)i) ? std::string("-/-") : cptr(cn[i]->lnk.next) + "/" + cptr(cn[i]->lnk.prev));
     }
     else if (kind == 't')
     {
         for (size_t i = 0; i < tobj.size(); i++)
-            s += (i ? " " : "") + std::to_string(i) + ":a=" + ttok(tobj[i]->la.next) + "/" + ttok(tobj[i]->la.prev) +
-                 ",b=" + ttok(tobj[i]->lb.next) + "/" + ttok(tobj[i]->lb.prev);
+            s += (i ? " " : "") + std::to_string(i) + ":a=" + (removed_d.count(2 * (int)i) ? std::string("-/-") : ttok(tobj[i]->la.next) + "/" + ttok(tobj[i]->la.prev)) +
+                 ",b=" + (removed_d.count(2 * (int)i + 1) ? std::string("-/-") : ttok(tobj[i]->lb.next) + "/" + ttok(tobj[i]->lb.prev));
         for (size_t j = 0; j < thead.size(); j++)
             s += " " + std::to_string(tobj.size() + j) + ":" + ttok(thead[j]->next) + "/" + ttok(thead[j]->prev);
     }
@@ -313,11 +401,14 @@ static std::string dump()
         }
     else if (kind == 's')
         for (size_t i = 0; i < sn.size(); i++)
-            s += (i ? " " : "") + std::to_string(i) + ":" + sptr(sn[i]->lnk.next);
+            s += (i ? " " : "") + std::to_string(i) + ":" + (s_free((int)i) ? std::string("-") : sptr(sn[i]->lnk.next));
     else if (kind == 'h')
     {
+        // which nodes the chains of the real heads reach (bounded walk on the real structure)
+        std::set<struct hlist_node *> reach;
+        for (auto *h : hh) { size_t guard = 0; for (struct hlist_node *p = h->first; p && guard++ <= hn.size(); p = p->next) reach.insert(p); }
         for (size_t i = 0; i < hn.size(); i++)
-            s += (i ? " " : "") + std::to_string(i) + ":" + hnid(hn[i]->next) + "/" + hloc(hn[i]->pprev);
+            s += (i ? " " : "") + std::to_string(i) + ":" + (reach.count(hn[i]) ? hnid(hn[i]->next) + "/" + hloc(hn[i]->pprev) : std::string("-/-"));
         for (size_t i = 0; i < hh.size(); i++)
             s += " " + std::to_string(hn.size() + i) + ":" + hnid(hh[i]->first);
     }
@@ -375,8 +466,15 @@ static int first_return(const std::vector<int> &succ, int start, int count)
 }
 static void c_succ(std::vector<int> &nx, std::vector<int> &pv)
 {
-    std::map<struct dlist_head *, int> id;
-    for (size_t i = 0; i < cn.size(); i++) id[&cn[i]->lnk] = (int)i;
+    // address -> id: the nodes do not move within a case, so the table is built once per case (300 000-node rings)
+    static std::map<struct dlist_head *, int> id;
+    static CItem *id_first = nullptr;
+    if (id.size() != cn.size() || (!cn.empty() && id_first != cn[0]))
+    {
+        id.clear();
+        for (size_t i = 0; i < cn.size(); i++) id.emplace_hint(id.end(), &cn[i]->lnk, (int)i);
+        id_first = cn.empty() ? nullptr : cn[0];
+    }
     nx.resize(cn.size()); pv.resize(cn.size());
     for (size_t i = 0; i < cn.size(); i++) { nx[i] = id[cn[i]->lnk.next]; pv[i] = id[cn[i]->lnk.prev]; }
 }
@@ -384,7 +482,15 @@ static void oracle_walks(out &o, const std::string &op, int a, int b, const std:
 {
     std::vector<int> nx, pv;
     c_succ(nx, pv);
-    if (op == "ccheck") { if (atoi(val.c_str()) != first_return(nx, a, b)) o.fail("dlist_check != first return time of the forward walk"); }
+    if (op == "csize" || op == "csize_rev")
+    {
+        // the int result = number of other nodes of the cycle through a (cycle detection on the id graph), exact up to INT_MAX
+        int f = first_return(op == "csize" ? nx : pv, a, INT_MAX);
+        if (f < 0) return; // the walk does not return (corrupted ring): not asked
+        if (atol(val.c_str()) != (long)f) o.fail("dlist_size / dlist_size_reversed != number of elements of the ring (" + std::to_string(f) + ")");
+    }
+    else if (op == "cin") { /* a = fnd, b = head */ bool in = false; int it = b, g = 0; for (it = nx[b]; it != b && g++ <= (int)nx.size(); it = nx[it]) if (it == a) in = true; if ((val == "1") != in) o.fail("dlist_in disagrees with the id graph"); }
+    else if (op == "ccheck") { if (atoi(val.c_str()) != first_return(nx, a, b)) o.fail("dlist_check != first return time of the forward walk"); }
     else if (op == "ccheck_rev") { if (atoi(val.c_str()) != first_return(pv, a, b)) o.fail("dlist_check_reversed != first return time of the backward walk"); }
     else if (op == "ccorrect")
     {
@@ -466,7 +572,7 @@ static void oracle_s(out &o)
         struct slist_head *head = &sn[hd]->lnk, *it;
         int guard = 0;
         slist_for_each(it, head) { fw.push_back(atoi(sptr(it).c_str())); if (++guard > 10000) break; }
-        if (fw != want) return o.fail("slist traversal from " + std::to_string(hd) + " = " + ids(fw) + ", reference " + ids(want));
+        if (fw != want) { if (fw.size() > 40) fw.resize(40); return o.fail("slist traversal from " + std::to_string(hd) + " = " + ids(fw) + (fw.size() == 40 ? ",..." : "") + ", reference " + ids(want)); }
         if (slist_size(head) != (int)want.size() || (bool)slist_empty(head) != want.empty()) return o.fail("slist_size/empty disagree");
         for (size_t k = 0; k < sn.size(); k++)
             if ((bool)slist_in(head, &sn[k]->lnk) != (std::find(want.begin(), want.end(), (int)k) != want.end()))
@@ -516,7 +622,7 @@ static void run_op(const std::vector<std::string> &w, const std::string &, out &
         kind = w[1][0];
         corrupt = false;
         int n = A(2);
-        if (kind == 'r')
+        if (kind == 'r' || kind == 'R')
         {
             kind = 'c';
             for (int i = 0; i < n; i++)
@@ -531,6 +637,7 @@ static void run_op(const std::vector<std::string> &w, const std::string &, out &
             for (int i = 0; i < n; i++) all.push_back(i);
             ref.rings.push_back(all);
             if (n > 1000) o.tag("ring-over-limit");
+            if (n >= 300000) o.tag("long-ring");
         }
         else if (kind == 't')
         {
@@ -574,16 +681,69 @@ static void run_op(const std::vector<std::string> &w, const std::string &, out &
             for (int i = 0; i < A(3); i++) { auto *p = (struct hlist_head *)malloc(sizeof(struct hlist_head)); p->first = 0; hh.push_back(p); hlists[n + i] = {}; }
         }
     }
+    // ---------------- round 3: kind-independent ops
+    else if (op == "widths")
+    {
+        // type widths, struct sizes, constants the model embeds, read out of the compiled code (C++ TU and C -O2 TU)
+        struct dlist_head dh; igris::dlist_node xn_; XList xl_;
+        char b2[128]; c01_o2_widths(b2, sizeof b2);
+        // the bound of dlist_is_correct, measured: the longest well-formed ring it accepts
+        int bound = 0;
+        {
+            std::vector<struct dlist_head> ring(1100);
+            dlist_init(&ring[0]);
+            for (int n = 1; n < 1100; n++) { dlist_add_prev(&ring[n], &ring[0]); if (dlist_is_correct(&ring[0])) bound = n + 1; }
+        }
+        val = "int=" + std::to_string(sizeof(dlist_size(&dh))) + "," + std::to_string(sizeof(dlist_size_reversed(&dh))) + "," + std::to_string(sizeof(slist_size((struct slist_head *)nullptr))) +
+              "," + std::to_string(sizeof(dlist_check(&dh, 0))) +
+              " size_t=" + std::to_string(sizeof(xn_.circular_size())) + "," + std::to_string(sizeof(xl_.size())) +
+              " ptr=" + std::to_string(sizeof(void *)) + " structs=" + std::to_string(sizeof(struct dlist_head)) + "," + std::to_string(sizeof(struct slist_head)) + "," +
+              std::to_string(sizeof(struct hlist_node)) + "," + std::to_string(sizeof(struct hlist_head)) + "," + std::to_string(sizeof(igris::dlist_node)) + "," + std::to_string(sizeof(XList)) +
+              " c=" + b2 + " bound=" + std::to_string(bound) +
+              " off=" + std::to_string(member_offset(&XItem::lnk)) + "," + std::to_string(member_offsetof(XItem, lnk)) + "," + std::to_string(member_offsetof(struct MMObj, hl)) +
+              " msize=" + std::to_string(member_sizeof(struct MMObj, la)) + "," + std::to_string(member_sizeof(struct MMObj, sl)) + "," + std::to_string(member_sizeof(struct MMObj, hl)) + "," + std::to_string(sizeof(struct MMObj));
+        if (sizeof(dlist_size(&dh)) * CHAR_BIT != 32 || sizeof(xn_.circular_size()) * CHAR_BIT != 64) o.fail("counter widths are not int32 / size_t64");
+        o.tag("widths");
+    }
+    else if (op == "mmac")
+    {
+        char buf[512];
+        int tu = A(1), i = A(2);
+        if (tu == 0) c01_mm_o1(i, buf, sizeof buf); else c01_mm_o2(i, buf, sizeof buf);
+        val = buf;
+        // oracle: every evaluation count is 1 (0 for the sizeof / typeof operands), independent of the model
+        std::vector<std::string> toks; { std::string t; for (char ch : val + " ") { if (ch == ' ') { toks.push_back(t); t.clear(); } else t += ch; } }
+        for (size_t k = 0; k < toks.size(); k++)
+        {
+            size_t c = toks[k].find(':');
+            if (c == std::string::npos) continue;
+            int ev = atoi(toks[k].c_str() + c + 1), want = (k == 17 || k == 18) ? 0 : 1;
+            if (ev != want) o.fail("macro #" + std::to_string(k) + " of the member.h / list-header exercise evaluated its argument " + std::to_string(ev) + " times (contract: " + std::to_string(want) + ")");
+            if (toks[k][0] == '?') o.fail("macro #" + std::to_string(k) + " returned a pointer that is no object of the fixture");
+        }
+        o.tag(tu ? "macros-C-O2" : "macros-C++-O1");
+    }
+    else if (op == "premain")
+    {
+        // what the init_priority(101) constructor saw, and the same lists walked now
+        val = "c=" + pm_obj.c + " s=" + pm_obj.sl + " x=" + pm_obj.x + " now c=" + pm_walk_c() + " s=" + pm_walk_s() + " x=" + pm_walk_x();
+        if (pm_obj.c != "2,1,0/3" || pm_walk_c() != "2,1,0/3") o.fail("statically initialised C dlist (DLIST_HEAD_INIT) used before main(): traversal " + pm_obj.c + ", expected 2,1,0/3");
+        if (pm_obj.sl != "1,0/2" || pm_walk_s() != "1,0/2") o.fail("statically initialised slist (SLIST_HEAD_INIT) used before main(): traversal " + pm_obj.sl + ", expected 1,0/2");
+        if (!pm_obj.x_ready) o.fail("a static igris::dlist is not a self-linked head before its dynamic initialiser ran (next == nullptr): use from an earlier static constructor dereferences NULL, and nodes linked before main() would be orphaned by the late constructor");
+        else if (pm_obj.x != "0,2/2" || pm_walk_x() != "0,2/2") o.fail("static igris::dlist used before main(): traversal " + pm_obj.x + " / now " + pm_walk_x() + ", expected 0,2/2");
+        o.tag("pre-main");
+    }
     // ---------------- C dlist
     else if (kind == 'c')
     {
         int a = A(1), b = w.size() > 2 ? A(2) : 0;
         struct dlist_head *pa = &cn[a]->lnk, *pb = w.size() > 2 && b < (int)cn.size() ? &cn[b]->lnk : nullptr;
         if (!corrupt) { std::string why = admitted_d(ref, op, a, b); if (!why.empty()) o.fail("call not admitted by the reference semantics: " + why); }
+        if (op == "cinit" || op == "cadd_next" || op == "cadd_prev" || op == "cinsert_instead" || op == "cmove_sorted") removed_d.erase(a);
         if (op == "cinit") { if (ref.multi(a)) o.tag("init-abandons-ring"); dlist_init(pa); ref.abandon(a); }
         else if (op == "cadd_next") { dlist_add_next(pa, pb); ref.ins_after(a, b); o.tag("insert"); }
         else if (op == "cadd_prev") { dlist_add_prev(pa, pb); ref.ins_before(a, b); o.tag("insert"); }
-        else if (op == "cdel") { if (ref.ring_size(a) == 1) o.tag("del-single"); dlist_del(pa); ref.remove(a); o.tag("remove"); }
+        else if (op == "cdel") { if (ref.ring_size(a) == 1) o.tag("del-single"); dlist_del(pa); ref.remove(a); removed_d.insert(a); o.tag("remove"); }
         else if (op == "cdel_init") { if (ref.ring_size(a) == 1) o.tag("del-single"); dlist_del_init(pa); ref.single(a); o.tag("remove"); }
         else if (op == "cmove" || op == "cmove_tail")
         {
@@ -605,6 +765,19 @@ static void run_op(const std::vector<std::string> &w, const std::string &, out &
             for (int x : ref.list(b)) if (a < x) { pos = x; break; }
             ref.ins_before(a, pos);
             o.tag("sorted-insert");
+        }
+        else if (op == "cmove_sorted_k")
+        {
+            int mode = A(3);
+            CItem *added = cn[a];
+            if (mode == 1) { dlist_move_sorted(added, pb, lnk, ckey_mod3); }
+            else if (mode == 2) { dlist_move_sorted(added, pb, lnk, ckey_wrap8); }
+            else { dlist_move_sorted(added, pb, lnk, ckey_less); }
+            int pos = b; bool tie = false;
+            for (int x : ref.list(b)) { if (cmp_mode(mode, a, x)) { pos = x; break; } if (!cmp_mode(mode, x, a)) tie = true; }
+            ref.ins_before(a, pos);
+            o.tag(mode == 1 ? "sorted-insert-ties" : mode == 2 ? "sorted-insert-wrap" : "sorted-insert");
+            if (tie) o.tag("sorted-insert-after-equal");
         }
         else if (op == "cpop_entry")
         {
@@ -661,6 +834,7 @@ static void run_op(const std::vector<std::string> &w, const std::string &, out &
             int m = w[raw ? 2 : 1] == "b", hd = A(raw ? 3 : 2), p = A(raw ? 4 : 3), q = A(raw ? 5 : 4);
             int mode = raw ? 0 : A(5), tgt = raw ? 0 : A(6);
             auto before = t_snapshot(1 - m);
+            if (!ref.in_ring(hrid(hd)) || (!raw && mode == 2 && !ref.in_ring(hrid(tgt)))) o.fail("call not admitted by the reference semantics: a list head is in no ring");
             std::vector<int> want = keys_of(ref.list(hrid(hd))), visited;
             int guard = 0;
             if (raw)
@@ -696,7 +870,7 @@ static void run_op(const std::vector<std::string> &w, const std::string &, out &
                 if (k % p == q)
                 {
                     if (mode == 0) ref.single(2 * k + m);
-                    else if (mode == 1) ref.remove(2 * k + m);
+                    else if (mode == 1) { ref.remove(2 * k + m); removed_d.insert(2 * k + m); }
                     else ref.ins_before(2 * k + m, hrid(tgt));
                     o.tag("delete-during-traversal");
                 }
@@ -710,6 +884,16 @@ static void run_op(const std::vector<std::string> &w, const std::string &, out &
             int m = ms == "b", a = A(2), b = w.size() > 3 ? A(3) : 0;
             auto before = t_snapshot(ms == "h" ? 2 : 1 - m);
             auto N = [&](int obj) { return m ? &tobj[obj]->lb : &tobj[obj]->la; };
+            {
+                // ENABLEDNESS for the two-member kind (round 3): the same predicate as for the C kind, on the reference ids
+                std::string why;
+                if (op == "tadd" || op == "tadd_tail" || op == "tsorted") why = admitted_d(ref, "cadd_next", 2 * a + m, hrid(b));
+                else if (op == "tdel" || op == "tdelp") why = admitted_d(ref, "cdel", 2 * a + m, 0);
+                else if (op == "tmove" || op == "tmove_tail") why = admitted_d(ref, "cmove", 2 * a + m, hrid(b));
+                else if (op == "tmove_to" || op == "tmove_tail_to") why = admitted_d(ref, "cmove", 2 * a + m, 2 * b + m);
+                else if ((op == "tnext" || op == "tprev") && !ref.in_ring(2 * a + m)) why = "entry neighbours of a node that is in no ring";
+                if (!why.empty()) o.fail("call not admitted by the reference semantics: " + why);
+            }
             auto key_or_end = [&](TObj *e) {
                 struct dlist_head *node = m ? &e->lb : &e->la;
                 int r = trid(node);
@@ -718,12 +902,12 @@ static void run_op(const std::vector<std::string> &w, const std::string &, out &
             if (op == "tinit")
             {
                 if (ms == "h") { dlist_init(H(a)); ref.single(hrid(a)); }
-                else { dlist_init(N(a)); ref.single(2 * a + m); }
+                else { dlist_init(N(a)); ref.single(2 * a + m); removed_d.erase(2 * a + m); }
             }
-            else if (op == "tadd") { dlist_add_next(N(a), H(b)); ref.ins_after(2 * a + m, hrid(b)); o.tag("insert"); }
-            else if (op == "tadd_tail") { dlist_add_tail(N(a), H(b)); ref.ins_before(2 * a + m, hrid(b)); o.tag("insert"); }
+            else if (op == "tadd") { dlist_add_next(N(a), H(b)); ref.ins_after(2 * a + m, hrid(b)); removed_d.erase(2 * a + m); o.tag("insert"); }
+            else if (op == "tadd_tail") { dlist_add_tail(N(a), H(b)); ref.ins_before(2 * a + m, hrid(b)); removed_d.erase(2 * a + m); o.tag("insert"); }
             else if (op == "tdel") { dlist_del_init(N(a)); ref.single(2 * a + m); o.tag("remove"); }
-            else if (op == "tdelp") { dlist_del(N(a)); ref.remove(2 * a + m); o.tag("remove"); }
+            else if (op == "tdelp") { dlist_del(N(a)); ref.remove(2 * a + m); removed_d.insert(2 * a + m); o.tag("remove"); }
             else if (op == "tmove" || op == "tmove_tail" || op == "tmove_to" || op == "tmove_tail_to")
             {
                 bool to = op == "tmove_to" || op == "tmove_tail_to", tail = op == "tmove_tail" || op == "tmove_tail_to";
@@ -743,6 +927,7 @@ static void run_op(const std::vector<std::string> &w, const std::string &, out &
                 int pos = hrid(b);
                 for (int x : ref.list(hrid(b))) if (a < x / 2) { pos = x; break; }
                 ref.ins_before(2 * a + m, pos);
+                removed_d.erase(2 * a + m);
                 o.tag("sorted-insert");
             }
             else if (op == "tentries" || op == "tentries_rev")
@@ -1651,6 +1836,61 @@ static void gen_c_exhaustive(int depth)
     }
 }
 
+// round 3: widths / constants, the macro exercise in both TUs, the pre-main history, rings in closed form at
+// boundary sizes and one ring of 300 000 nodes (thorough: 1 000 000), sorted insertion with a weak order
+// with ties and with the wrap-around comparator
+static void gen_sorted_case(rng &r, int n, int nops)
+{
+    auto S = [](long v) { return std::to_string(v); };
+    emit("reset c " + S(n));
+    std::vector<int> L; // contents of list 0
+    for (int q = 0; q < nops; q++)
+    {
+        std::vector<int> fr;
+        for (int i = 1; i < n; i++) if (std::find(L.begin(), L.end(), i) == L.end()) fr.push_back(i);
+        if (!fr.empty() && (L.empty() || r.chance(70)))
+        {
+            int a = fr[r.below(fr.size())], mode = r.chance(45) ? 1 : r.chance(80) ? 2 : 0;
+            emit("cmove_sorted_k " + S(a) + " 0 " + S(mode));
+            size_t pos = L.size();
+            for (size_t i = 0; i < L.size(); i++) if (cmp_mode(mode, a, L[i])) { pos = i; break; }
+            L.insert(L.begin() + pos, a);
+        }
+        else if (!L.empty())
+        {
+            size_t i = r.below(L.size());
+            emit("cdel_init " + S(L[i]));
+            L.erase(L.begin() + i);
+        }
+        if (r.chance(25)) emit(r.chance(50) ? "clist 0" : "clist_rev 0");
+    }
+    emit("clist 0");
+}
+static void gen_round3(rng &r, bool th)
+{
+    auto S = [](long v) { return std::to_string(v); };
+    emit("reset c 2"); emit("widths"); emit("premain");
+    for (int i = 0; i < 4; i++) { emit("mmac 0 " + S(i)); emit("mmac 1 " + S(i)); }
+    emit("premain");
+    // the closed-form ring of the model against the ring the code builds, small enough to be dumped
+    for (int n : {1, 2, 3, 12, 16})
+    {
+        emit("reset R " + S(n)); emit("clist 0"); emit("clist_rev 0"); emit("csize 0"); emit("csize_rev " + S(n / 2)); emit("cin " + S(n - 1) + " 0");
+        emit("ccheck 0 " + S(n)); emit("ccorrect 0"); emit("cdel_init " + S(n - 1)); emit("clist 0");
+    }
+    std::vector<int> sizes = {17, 255, 256, 257, 999, 1000, 1001, 65535, 65536, 65537, 300000};
+    if (th) sizes.push_back(1000000);
+    for (int n : sizes)
+    {
+        emit("reset R " + S(n));
+        emit("csize 0"); emit("csize_rev 0"); emit("csize " + S(n - 1)); emit("ccheck 0 " + S(n)); emit("ccheck 0 " + S(n - 1)); emit("ccheck_rev 5 " + S(n));
+        emit("ccorrect 0"); emit("cin " + S(n - 1) + " 0"); emit("cin 0 0"); emit("cin 3 " + S(n - 1));
+        // repeated calls on ONE object with changed state between the calls
+        emit("cdel_init " + S(n / 2)); emit("csize 0"); emit("cin " + S(n / 2) + " 0"); emit("cadd_next " + S(n / 2) + " 0"); emit("csize_rev 0"); emit("cin " + S(n / 2) + " 0");
+    }
+    for (int i = 0; i < (th ? 200 : 30); i++) gen_sorted_case(r, (int)r.range(4, 14), th ? 80 : 50);
+}
+
 static void gen(rng &r, const std::string &tier)
 {
     bool th = tier == "thorough";
@@ -1666,6 +1906,7 @@ static void gen(rng &r, const std::string &tier)
     emit("@F:C01-is-correct-length-only ccorrect_strict 0");
     emit("reset s 4"); emit("sadd 2 0"); emit("@F:C01-slist-move-front-foreign smove_front 2 1");
     for (int i = 0; i < cases / 2; i++) gen_t_case(r, (int)r.range(1, 6), th ? 200 : 120);
+    gen_round3(r, th);
 }
 
 int main(int argc, char **argv)
